@@ -98,7 +98,10 @@ fn lex(s: &str) -> LRNonStreamingLexer<'_, '_, DefaultLexerTypes<u8>> {
             }
         }
     }
-    LRNonStreamingLexer::new(s, lexemes, NewlineCache::new())
+    // The cache must know the whole text, or positions cannot be turned into lines and columns.
+    let mut newlines = NewlineCache::new();
+    newlines.feed(s);
+    LRNonStreamingLexer::new(s, lexemes, newlines)
 }
 
 fn eval(
